@@ -1,5 +1,7 @@
 (* C20 — a terminal abort always surfaces as an error identifying its result code.  Statements only. *)
 From Zvt Require Import Base Length Cp437 Encoding Codec Lookup Client ClientProps SpecCheck.
+From Zvt.gen Require Tables.
+From Zvt.spec Require Spec.
 Open Scope N_scope.
 
 (* for ALL result codes c and every exchange with an abort arm: the operation fails with an error that
@@ -31,3 +33,8 @@ Proof. exact exceptions_are_known_codes. Qed.
 Print Assumptions C20_abort_surfaces.
 Print Assumptions C20_abort_ends_the_loop.
 Print Assumptions C20_exceptions_are_known_codes.
+
+(* the regenerated result-code table (79 codes with their messages) equals the specification table *)
+Theorem C20_result_codes_agree_with_spec : codes_eqb Tables.error_table Spec.result_codes = true.
+Proof. exact result_codes_agree_with_spec. Qed.
+Print Assumptions C20_result_codes_agree_with_spec.
